@@ -219,6 +219,12 @@ func replayAuth(in string, shard, of int) {
 		for si, st := range beh {
 			r := hx.Step(st["relay"].(map[string]interface{}))
 			rep.Steps++
+			if st.Has("disp") && st.Bool("disp") {
+				// the client asks this node for the session first (the node caches what it computes)
+				sp := w.specOf(r)
+				_, _ = w.K.HandleDispatch(w.Ctx(finalHeight), w.Header(sp.AppKey, sp.Chain, sp.SessionH))
+				rep.OpCounts["dispatch-first"]++
+			}
 			totalBefore := w.storeTotal(headers)
 			got := w.handleAuth(r, st.Int("tol"), headers)
 			rep.OpCounts[got.out]++
@@ -352,10 +358,18 @@ func traceAuth(out string, n int, big bool) {
 			b, _ := json.Marshal(r)
 			var st hx.Step
 			_ = json.Unmarshal(b, &st)
+			disp := rng.Intn(3) == 0
+			if disp {
+				// an unauthenticated dispatch request for the relay's application and chain first: the node
+				// caches the session it computes, whether or not it belongs to it
+				sp := w.specOf(st)
+				_, _ = w.K.HandleDispatch(w.Ctx(finalHeight), w.Header(sp.AppKey, sp.Chain, sp.SessionH))
+				rep.OpCounts["dispatch-first"]++
+			}
 			got := w.handleAuth(st, tol, headers)
 			rep.Steps++
 			rep.OpCounts[got.out]++
-			ev := map[string]interface{}{"op": "relay", "relay": r, "out": got.out, "served": got.served,
+			ev := map[string]interface{}{"op": "relay", "relay": r, "disp": disp, "out": got.out, "served": got.served,
 				"ev": map[string]interface{}{"n": got.n, "sealed": got.sealed}, "total": got.total}
 			if got.bloomFP {
 				ev["op"] = "skip" // filter false positive: not judged; the run ends here
